@@ -225,7 +225,14 @@ def op_fd_seq(a):
 
 
 def op_fd_useq(a):
-    p = FileDataPdu.unpack(unhx(a["raw"]))
+    raw, sfx = unhx(a["raw"]), unhx(a["suffix"])
+    try:
+        p = FileDataPdu.unpack(raw + sfx)
+    except Exception as e:  # noqa
+        if sfx and exc_category(e) in DOCUMENTED:
+            p = FileDataPdu.unpack(raw)
+        else:
+            raise
     return _run_seq(p, a["steps"], lambda: p.pdu_header.pdu_conf)
 
 
@@ -298,7 +305,21 @@ def ref_accepts(raw: bytes) -> bool:
     return len(body) >= w
 
 
+def declared_len(raw: bytes) -> Optional[int]:
+    """total length the fixed header declares, when the buffer holds a well-formed header"""
+    if len(raw) < 4 or raw[0] >> 5 != 1:
+        return None
+    idw, sqw = ((raw[3] >> 4) & 7) + 1, (raw[3] & 7) + 1
+    if idw not in WIDTHS or sqw not in WIDTHS or len(raw) < 4 + 2 * idw + sqw:
+        return None
+    return 4 + 2 * idw + sqw + (raw[1] << 8 | raw[2])
+
+
 def dec_case(raw: bytes, tag: str, sfx: bytes = b"", via: int = 0, force: Optional[str] = None) -> Case:
+    # octets after the declared PDU always travel as "suffix": refusing them is an allowed behaviour
+    n = declared_len(raw)
+    if n is not None and len(raw) > n:
+        raw, sfx = raw[:n], raw[n:] + sfx
     e = force if force is not None else ("valid" if ref_accepts(raw) else "invalid")
     op = {"op": "fd_unpack", "raw": hx(raw), "suffix": hx(sfx)}
     if via:
@@ -644,7 +665,7 @@ class C07(Prop):
             yield Case({"op": "fd_seq", **a, "steps": steps}, "valid", tag="setter-sequence")
             if i % 3 == 0:
                 b = rand_args(rng)
-                yield Case({"op": "fd_useq", "raw": hx(spec_fd(b)) + hx(rbytes(rng, rng.choice([0, 0, 3]))),
+                yield Case({"op": "fd_useq", "raw": hx(spec_fd(b)), "suffix": hx(rbytes(rng, rng.choice([0, 0, 3]))),
                             "steps": steps}, "valid", tag="setter-sequence-after-unpack")
         # single setter calls on every (CRC, large-file, metadata present/absent) state
         for crc in (0, 1):
